@@ -728,25 +728,54 @@ func (c *Conc) projectMethod(fset *token.FileSet, src []byte, fd *ast.FuncDecl, 
 
 const warnMarker = "// !!! WARNING !!!"
 
-// warnBlock returns the text inside the trailing /* */ of the warning block ("" if none).
+// the prose lines of resolver.gotpl's warning block (not user code)
+var warnProse = map[string]bool{
+	"!!! WARNING !!!": true,
+	"The code below was going to be deleted when updating resolvers. It has been copied here so you have": true,
+	"one last chance to move it out of harms way if you want. There are two reasons this happens:":       true,
+	"- When renaming or deleting a resolver the old code will be put in here. You can safely delete":     true,
+	"it when you're done.": true,
+	"- You have helper methods in this file. Move them out to keep these resolver files clean.": true,
+}
+
+// warnBlock recovers the source text carried by the trailing warning block,
+// independent of its representation: everything after the "!!! WARNING !!!"
+// marker up to the end of the file that is a comment - one /* */ block
+// comment, a run of // line comments (one leading "// " or "//" stripped per
+// line), or a mix - minus the template's own prose lines.
 func warnBlock(f *ast.File) (string, bool) {
-	for gi, g := range f.Comments {
-		if len(g.List) == 0 || !strings.HasPrefix(g.List[0].Text, warnMarker) {
-			continue
-		}
-		// the block comment is the last comment of this group or the next group
-		cands := append([]*ast.Comment{}, g.List...)
-		if gi+1 < len(f.Comments) {
-			cands = append(cands, f.Comments[gi+1].List...)
-		}
-		for _, cm := range cands {
-			if strings.HasPrefix(cm.Text, "/*") {
-				return strings.TrimSuffix(strings.TrimPrefix(cm.Text, "/*"), "*/"), true
+	found := false
+	var out []string
+	for _, g := range f.Comments {
+		for _, cm := range g.List {
+			if !found {
+				if strings.HasPrefix(cm.Text, warnMarker) {
+					found = true
+				}
+				continue
 			}
+			t := strings.ReplaceAll(cm.Text, "\r", "")
+			if strings.HasPrefix(t, "/*") {
+				out = append(out, strings.TrimSuffix(strings.TrimPrefix(t, "/*"), "*/"))
+				continue
+			}
+			line := strings.TrimPrefix(t, "//")
+			if warnProse[strings.TrimSpace(line)] {
+				continue
+			}
+			out = append(out, strings.TrimPrefix(line, " "))
 		}
-		return "", true
 	}
-	return "", false
+	return strings.Join(out, "\n"), found
+}
+
+// WarnText parses a resolver file and returns the source text carried by its trailing warning block.
+func WarnText(src []byte) (string, bool) {
+	f, err := parser.ParseFile(token.NewFileSet(), "x.go", src, parser.ParseComments)
+	if err != nil {
+		return "", false
+	}
+	return warnBlock(f)
 }
 
 // helperTokens converts found helper declarations into tokens: a token is
